@@ -68,10 +68,21 @@ func errKind(err error) string {
 
 func implEnc(l int64, e []byte) string {
 	return guarded(func() string {
-		keep := append([]byte(nil), e...)
-		s, err := bip39.NewMnemonicByEntropy(e, bip39.Language(l))
-		if string(keep) != string(e) {
-			return "mutated-input " + hx(e)
+		// hand the implementation a slice with spare capacity inside a larger guarded buffer:
+		// neither the entropy nor the bytes around it may change
+		var buf, in []byte
+		if e != nil {
+			buf = make([]byte, len(e)+16)
+			for i := range buf {
+				buf[i] = 0xA5
+			}
+			copy(buf[8:], e)
+			in = buf[8 : 8+len(e)]
+		}
+		keep := append([]byte(nil), buf...)
+		s, err := bip39.NewMnemonicByEntropy(in, bip39.Language(l))
+		if string(keep) != string(buf) {
+			return "mutated-input " + hx(buf) + " was " + hx(keep)
 		}
 		if err != nil {
 			if s != "" {
